@@ -90,8 +90,12 @@ func c11ChildMain() {
 				curMu.Lock()
 				id := cur
 				curMu.Unlock()
-				write(c11Outcome{ID: id, Class: "mem-exceeded", RSSMB: rss, BaseMB: base,
-					Detail: fmt.Sprintf("resident set %d MB, warm baseline %d MB, cap %d MB above baseline", rss, base, c11MemCapMB)})
+				// where is the main goroutine? (phase of the handler)
+				buf := make([]byte, 1<<20)
+				buf = buf[:runtime.Stack(buf, true)]
+				phase, top := c11Phase(string(buf))
+				write(c11Outcome{ID: id, Class: "mem-exceeded", RSSMB: rss, BaseMB: base, Site: phase, Func: top, Stack: c11Bound(string(buf), 4000),
+					Detail: fmt.Sprintf("resident set %d MB after a forced GC, warm baseline %d MB, cap %d MB above baseline (4x the 500 MB allocation limit); handler phase: %s, at %s", rss, base, c11MemCapMB, phase, top)})
 				os.Exit(4)
 			}
 		}
@@ -350,4 +354,38 @@ func c11Alone(in c11Input, budget time.Duration) (c11Result, error) {
 	}
 	defer c.kill()
 	return c.ask(in, budget), nil
+}
+
+// c11Phase tells from an all-goroutine dump in which phase of the handler the
+// main goroutine is: typecheck (go/types under TypeCheckMemPackage),
+// preprocess, or run; top is the innermost non-runtime function.
+func c11Phase(dump string) (phase, top string) {
+	g := dump
+	if i := strings.Index(g, "goroutine 1 ["); i >= 0 {
+		g = g[i:]
+		if j := strings.Index(g, "\n\n"); j >= 0 {
+			g = g[:j]
+		}
+	}
+	phase = "run"
+	switch {
+	case strings.Contains(g, "gnolang.TypeCheckMemPackage"):
+		phase = "typecheck"
+	case strings.Contains(g, "gnolang.Preprocess") || strings.Contains(g, "gnolang.preprocess1") || strings.Contains(g, "gnolang.predefineRecursively"):
+		phase = "preprocess"
+	case strings.Contains(g, "ParseMemPackage") || strings.Contains(g, "gnolang.Go2Gno"):
+		phase = "parse"
+	}
+	top = "?"
+	for _, l := range strings.Split(g, "\n")[1:] {
+		if l == "" || strings.HasPrefix(l, "\t") || strings.HasPrefix(l, "runtime.") || strings.HasPrefix(l, "runtime/") {
+			continue
+		}
+		top = l
+		if p := strings.LastIndex(top, "("); p > 0 {
+			top = top[:p]
+		}
+		break
+	}
+	return
 }
